@@ -541,6 +541,7 @@ type vRbfCase struct {
 	adversary int   // 0 none, else kind of malformed message injected
 	hasty     bool  // inject a SendOffer while LocalOfferSent
 	spend     bool
+	script    []string // forced schedule prefix ("A:user", "B:deliver", "B:post", ...)
 }
 
 func vScript(r *vrng, kind int) []byte {
@@ -774,6 +775,17 @@ func vRunRbf(t *testing.T, out *vWriter, r *vrng, c vRbfCase) {
 			break
 		}
 		ac := acts[r.intn(len(acts))]
+		if len(c.script) > 0 {
+			// the forced prefix: take the scripted action if it is enabled
+			kinds := []string{":user", ":post", ":deliver"}
+			for _, cand := range acts {
+				if cand.n.name+kinds[cand.kind] == c.script[0] {
+					ac = cand
+					c.script = c.script[1:]
+					break
+				}
+			}
+		}
 		n := ac.n
 		switch ac.kind {
 		case 0:
@@ -1130,6 +1142,9 @@ func TestVerifRbf(t *testing.T) {
 
 	vRbfPure(out, master)
 
+	// legacy flow: every ordering of the entry events (verif_entry_test.go)
+	vEntryCases(t, out, master)
+
 	plain := channeldb.SingleFunderTweaklessBit | channeldb.AnchorOutputsBit |
 		channeldb.ZeroHtlcTxFeeBit
 	tapCT := plain | channeldb.SimpleTaprootFeatureBit
@@ -1156,6 +1171,29 @@ func TestVerifRbf(t *testing.T) {
 	vRunRbf(t, out, fixed.fork(4), vRbfCase{name: "w_taproot_both", ct: tapCT,
 		bobSat: -1, scrA: vScript(fixed, 2), scrB: vScript(fixed, 2),
 		shutA: true, shutB: true, ratesA: []int64{3, 6, 9}, ratesB: []int64{4, 8, 12}})
+
+	// (4b) EARLY-EVENT orderings, listed (not sampled): the closer's
+	// closing_complete reaches the closee before the closee's flush event /
+	// before its ShutdownComplete post-send event / with the flush skipped
+	// (FinalBalances known) / after simultaneous shutdowns; either role.
+	early := [][]string{
+		{"A:user", "B:deliver", "B:post", "A:deliver", "A:user", "B:deliver", "B:user"},
+		{"A:user", "B:deliver", "A:deliver", "A:user", "B:deliver", "B:post", "B:user"},
+		{"A:user", "B:user", "A:deliver", "A:user", "B:deliver", "B:deliver", "B:user"},
+		{"B:user", "A:deliver", "A:post", "B:deliver", "B:user", "A:deliver", "A:user"},
+		{"B:user", "A:deliver", "B:deliver", "B:user", "A:deliver", "A:post", "A:user"},
+		{"A:user", "B:deliver", "B:post", "B:user", "A:deliver", "A:user", "B:deliver"},
+	}
+	for k, sc := range early {
+		for j, ct := range []channeldb.ChannelType{plain, tapCT, plain} {
+			vRunRbf(t, out, fixed.fork(uint64(40+10*k+j)), vRbfCase{
+				name: fmt.Sprintf("w_early_%d_%d", k, j), ct: ct, bobSat: -1,
+				dustA: 354, dustB: 354, scrA: vScript(fixed, 2*(j%2)),
+				scrB: vScript(fixed, 2*(j%2)), addrA: true,
+				shutA: true, shutB: true, ratesA: []int64{3, 5}, ratesB: []int64{4},
+				finalKnown: j == 2, script: append([]string{}, sc...)})
+		}
+	}
 
 	// (5) RemoteCanPayFees boundary: a closing_complete announcing a fee one
 	// above / exactly at the closer's balance
